@@ -7,6 +7,9 @@ import (
 	"math/rand"
 	"os"
 	"path/filepath"
+	"regexp"
+	"runtime"
+	"strings"
 	"sync"
 	"sync/atomic"
 	"testing"
@@ -30,6 +33,47 @@ import (
 // perturbation mode (no synchronisation). Only race reports, panics and the invariants below
 // (which do not depend on timing) are judged; a hang is harness trouble.
 
+// lockedUp looks at the stacks of all goroutines and tells whether the code under test is in a true
+// deadlock: at least one goroutine with frames of the repository waits for a sync.Mutex / RWMutex,
+// and no goroutine with frames of the repository or of the workload is running, runnable, sleeping
+// or in a system call - all of them are parked on locks or channels. A system that is merely slow
+// (an overloaded machine, a long RocksDB call) always has such a goroutine: the one holding the lock.
+var goroutineHead = regexp.MustCompile(`^goroutine (\d+) \[([^\]]*)\]:`)
+
+func lockedUp(self string) (bool, string) {
+	buf := make([]byte, 4<<20)
+	buf = buf[:runtime.Stack(buf, true)]
+	waiting, picture := 0, []string{}
+	for _, g := range strings.Split(string(buf), "\n\n") {
+		m := goroutineHead.FindStringSubmatch(g)
+		if m == nil || strings.Contains(g, self) {
+			continue
+		}
+		if !strings.Contains(g, "facebookincubator/dns/dnsrocks") && !strings.Contains(g, "dsim/checks.raceSlice") {
+			continue // runtime, testing, glog, fsnotify's reader, RocksDB's own threads are not goroutines
+		}
+		state := strings.SplitN(m[2], ",", 2)[0]
+		switch {
+		case strings.HasPrefix(state, "sync.") || strings.HasPrefix(state, "semacquire"):
+			if strings.Contains(g, "dnsrocks/") {
+				waiting++
+				lines := strings.Split(g, "\n")
+				for _, l := range lines {
+					if strings.Contains(l, "dnsrocks/") && !strings.HasPrefix(l, "\t") {
+						picture = append(picture, fmt.Sprintf("g%s [%s] in %s", m[1], state, strings.TrimPrefix(strings.SplitN(l, "(0x", 2)[0], "github.com/facebookincubator/dns/dnsrocks/")))
+						break
+					}
+				}
+			}
+		case strings.HasPrefix(state, "chan ") || strings.HasPrefix(state, "select"):
+			// parked on a channel: cannot release a lock by itself
+		default:
+			return false, "" // something of the system is alive
+		}
+	}
+	return waiting > 0, strings.Join(picture, "; ")
+}
+
 type raceStats struct {
 	Slices      int            `json:"slices"`
 	Queries     int64          `json:"queries"`
@@ -42,6 +86,8 @@ type raceStats struct {
 	WallS       float64        `json:"wall_s"`
 	Seed        uint64         `json:"seed"`
 	Incremented int64          `json:"counter_increments_checked"`
+	StallChecks int64          `json:"lock_up_checks"`
+	dead        bool
 }
 
 func raceSlice(t *testing.T, backend string, seed uint64, d time.Duration, rs *raceStats) {
@@ -189,9 +235,56 @@ func raceSlice(t *testing.T, backend string, seed uint64, d time.Duration, rs *r
 			time.Sleep(200 * time.Microsecond)
 		}
 	}()
-	time.Sleep(d)
-	close(stop)
-	wg.Wait()
+	// lock-up detector: no query, reload or stats call completed for 10 s AND two looks at all
+	// goroutines, 5 s apart, both show the code under test parked on locks with nothing alive that
+	// could release them (see lockedUp). The first condition alone would be a matter of timing.
+	progress := func() int64 {
+		return atomic.LoadInt64(&queries) + atomic.LoadInt64(&rs.Reloads) + atomic.LoadInt64(&rs.StatsCalls)
+	}
+	end := time.Now().Add(d)
+	last, lastMove, strikes, picture := progress(), time.Now(), 0, ""
+	stopped := false
+	finished := make(chan struct{})
+watch:
+	for {
+		time.Sleep(100 * time.Millisecond)
+		if !stopped && !time.Now().Before(end) {
+			stopped = true
+			close(stop)
+			go func() {
+				wg.Wait()
+				close(finished)
+			}()
+		}
+		select {
+		case <-finished:
+			break watch
+		default:
+		}
+		if p := progress(); p != last {
+			last, lastMove, strikes = p, time.Now(), 0
+			continue
+		}
+		if time.Since(lastMove) < time.Duration(5+5*strikes)*time.Second {
+			continue
+		}
+		atomic.AddInt64(&rs.StallChecks, 1)
+		stuck, pic := lockedUp("checks.lockedUp")
+		if !stuck {
+			strikes, lastMove = 0, time.Now()
+			continue
+		}
+		strikes++
+		picture = pic
+		if strikes == 2 {
+			vmu.Lock()
+			violate("deadlock: no query, reload or statistics call completed for %v and every goroutine of the server is parked on a lock or a channel (backend %s): %s",
+				time.Since(lastMove).Round(time.Second), backend, picture)
+			vmu.Unlock()
+			rs.dead = true
+			return // the goroutines of this slice stay where they are
+		}
+	}
 	time.Sleep(20 * time.Millisecond) // let a reload taken from ReloadChan finish
 	for i := 0; i < 200 && !fb.VerifIdle(); i++ {
 		time.Sleep(10 * time.Millisecond)
@@ -239,8 +332,17 @@ func TestC14Race(t *testing.T) {
 		raceSlice(t, b, env.Seed*1000+uint64(i), 1500*time.Millisecond, rs)
 		rs.Slices++
 		rs.Backends[b]++
+		if rs.dead {
+			break
+		}
 	}
 	rs.WallS = time.Since(start).Seconds()
+	// after a deadlock verdict the goroutines of the last slice are still there: read the counters they
+	// update the way they write them
+	snap := &raceStats{Slices: rs.Slices, Queries: rs.Queries, Reloads: atomic.LoadInt64(&rs.Reloads), ReloadsOK: atomic.LoadInt64(&rs.ReloadsOK),
+		StatsCalls: atomic.LoadInt64(&rs.StatsCalls), GetCalls: atomic.LoadInt64(&rs.GetCalls), Backends: rs.Backends, Violations: rs.Violations,
+		WallS: rs.WallS, Seed: rs.Seed, Incremented: rs.Incremented, StallChecks: atomic.LoadInt64(&rs.StallChecks)}
+	rs = snap
 	data, _ := json.MarshalIndent(rs, "", " ")
 	_ = os.WriteFile(filepath.Join(env.OutDir, "race.json"), data, 0o644)
 	for _, v := range rs.Violations {
